@@ -185,6 +185,23 @@ def run_state(seed, tier):
                         export(f)
                     with iosim.real_open(os.path.join(sb.root, "t." + fmt), "rb") as f:
                         dests["file-w"] = f.read().decode("utf-8")
+                    # a text file the caller has already written to (text still pending in
+                    # the wrapper), and one in an encoding that is not UTF-8 at all
+                    header = "# written by the caller before the document\n"
+                    with open(os.path.join(sb.root, "h." + fmt), "w", encoding="utf-8", newline="") as f:
+                        f.write(header)
+                        export(f)
+                    with iosim.real_open(os.path.join(sb.root, "h." + fmt), "rb") as f:
+                        hdata = f.read().decode("utf-8")
+                    if not hdata.startswith(header):
+                        violate("destinations", "%s-text-file-caller-text-displaced" % fmt,
+                                {"head": hdata[:120]})
+                    else:
+                        dests["file-w-after-header"] = hdata[len(header):]
+                    with open(os.path.join(sb.root, "u." + fmt), "w", encoding="utf-16", newline="") as f:
+                        export(f)
+                    with iosim.real_open(os.path.join(sb.root, "u." + fmt), "rb") as f:
+                        dests["file-w-utf16"] = f.read().decode("utf-16")
                     with open(os.path.join(sb.root, "b." + fmt), "wb") as f:
                         export(f)
                     with iosim.real_open(os.path.join(sb.root, "b." + fmt), "rb") as f:
@@ -201,7 +218,8 @@ def run_state(seed, tier):
                     continue
                 for kind, data in dests.items():
                     cell("%s:dest:%s" % (fmt, kind))
-                    want_text = kind in ("StringIO", "SimTextStream", "file-w", "SimTextStream-latin1", "file-w-cp1252")
+                    want_text = kind in ("StringIO", "SimTextStream", "file-w", "SimTextStream-latin1", "file-w-cp1252",
+                                         "file-w-after-header", "file-w-utf16")
                     if want_text != isinstance(data, str):
                         violate("destinations", "%s-%s-wrong-type" % (fmt, kind), {"type": type(data).__name__})
                         continue
